@@ -50,8 +50,8 @@ func init() {
 		Old: "\tcase *js.ForStmt:\n\t\tstmt.Body.List = optimizeStmtList(stmt.Body.List, iterationBlock)\n\t\tm.renamer.renameScope(stmt.Body.Scope)\n", New: "\tcase *js.ForStmt:\n\t\tm.renamer.renameScope(stmt.Body.Scope)\n\t\tstmt.Body.List = optimizeStmtList(stmt.Body.List, iterationBlock)\n",
 		Rule: "R02.7", Construct: "case *js.ForStmt"})
 	mutant(&Mutant{Name: "c02-arrow-ignores-with", Property: "C02", File: "js/js.go",
-		Old: "func (m *jsMinifier) minifyArrowFunc(decl *js.ArrowFunc) {\n\tparentRename := m.renamer.rename\n\tm.renamer.rename = !decl.Body.Scope.HasWith && !m.o.KeepVarNames",
-		New: "func (m *jsMinifier) minifyArrowFunc(decl *js.ArrowFunc) {\n\tparentRename := m.renamer.rename\n\tm.renamer.rename = !m.o.KeepVarNames",
+		Old:  "func (m *jsMinifier) minifyArrowFunc(decl *js.ArrowFunc) {\n\tparentRename := m.renamer.rename\n\tm.renamer.rename = !decl.Body.Scope.HasWith && !m.o.KeepVarNames",
+		New:  "func (m *jsMinifier) minifyArrowFunc(decl *js.ArrowFunc) {\n\tparentRename := m.renamer.rename\n\tm.renamer.rename = !m.o.KeepVarNames",
 		Rule: "R02.2", Construct: "minifyArrowFunc/rename ="})
 	mutant(&Mutant{Name: "c02-reserved-check-once", Property: "C02", File: "js/vars.go",
 		Old: "\t\tfor r.isReserved(v.Data, scope.Undeclared) {", New: "\t\tif r.isReserved(v.Data, scope.Undeclared) {",
@@ -85,6 +85,8 @@ func runC02(c *Ctx) {
 	c.r025(pk)
 	c.r026(pk)
 	c.r027(pk)
+	c.R.Rule("R02.8", "R01.3 restricted to renamer.rename: every save `p := m.renamer.rename` is followed, on every path from the later assignment of the switch to a function exit, by the restore `m.renamer.rename = p` — a leaked `on` lets the rest of an enclosing function that contains `with` be renamed")
+	c.r013(pk, "R02.8", map[string]bool{"rename": true})
 }
 
 // R02.7: statement lists are optimized before their scope is renamed.
